@@ -414,7 +414,7 @@ class ExprMixin:
         """a val whose declared spec is (optionally) a dict/set/seq is read through that spec"""
         if c.kind == "val" and c.spec is not None:
             sp = c.spec.arg if c.spec.kind == "opt" else c.spec
-            if isinstance(sp, Spec) and sp.kind in ("dict", "set", "seq"):
+            if isinstance(sp, Spec) and sp.kind in ("dict", "set", "seq", "tupleof"):
                 return unbox(sp, c.t, st, facts=False)
         return c
 
@@ -658,10 +658,15 @@ class ExprMixin:
                     self.bind_target(e, it, st)
                 return
             s = as_seq(value, st)
-            self.may_raise(st, Q.Length(s) != len(target.elts), "ValueError", "unpack")
+            vspec = value.spec
+            if vspec is not None and vspec.kind == "opt":
+                vspec = vspec.arg
             es = None
-            if value.spec is not None and value.spec.kind == "tupleof":
-                es = value.spec.arg
+            if vspec is not None and vspec.kind == "tupleof":
+                es = vspec.arg
+                if len(es) == len(target.elts):
+                    st.assume(Q.Length(s) == len(es))
+            self.may_raise(st, Q.Length(s) != len(target.elts), "ValueError", "unpack")
             for i, e in enumerate(target.elts):
                 sp = es[i] if es else elem_spec(value)
                 self.bind_target(e, unbox(sp, Q.At(s, i), st), st)
